@@ -22,6 +22,8 @@ _INDEX = re.compile(r" as std::ops::Index(Mut)?<.*>>::index(_mut)?$|impl std::op
 _INDEX_EXEMPT = ("serde_json::Value", "std::collections::HashMap", "std::collections::BTreeMap")
 _PANICS = re.compile(r"(^|::)(core|std)::panicking::(panic|panic_fmt|panic_display|panic_explicit|assert_failed|assert_failed_inner|unreachable_display|panic_nounwind|begin_panic)$|(^|::)std::rt::begin_panic$")
 
+_TIME_SUB = re.compile(r"<std::time::(Duration|Instant|SystemTime) as std::ops::(Sub|SubAssign)(<[^>]*>)?>::(sub|sub_assign)$")
+
 ADAPTER_PREFIXES = {
     "tower": ("teos::api::", "teos_common::ser", "teos_common::appointment", "teos_common::receipts", "teos_common::cryptography"),
     "plugin": ("watchtower_plugin::net", "watchtower_plugin::convert", "watchtower_plugin::ser", "teos_common::ser", "teos_common::receipts"),
@@ -162,6 +164,25 @@ def rule_IX(ctx, tier, scope="tower", name=None):
                     rr.ok("%s: explicit panic [%s]" % (shortfn(fn), TABLE[key][1]))
                 else:
                     rr.fail("explicit-panic:%s" % shortfn(fn), "`%s` contains an explicit panic (`%s`) on a path reachable from %s, and it is not one of the confirmed sites" % (shortfn(fn), tgt.split("::")[-1], sorted(kinds.get(bid) or ["the HTTP layer"])), where=t.get("line"))
+                continue
+            # ---- time arithmetic that panics on a negative result (`Duration - Duration`, `Instant - Duration`, ...)
+            if any(_TIME_SUB.search(n) for n in names):
+                a0, a1 = og.strip(arg_origin(ctx, b, bb, 0)), og.strip(arg_origin(ctx, b, bb, 1))
+                guarded = False
+                for f in facts_at(ctx, b, bb):
+                    if f[0] == "truth":
+                        for (o, x, y) in rel_of_term(f[1], f[2]):
+                            if o in ("Ge", "Gt") and og.strip(x) == a0 and og.strip(y) == a1:
+                                guarded = True
+                key = (fn, "time-sub")
+                if guarded:
+                    rr.ok("%s: time subtraction under minuend >= subtrahend" % shortfn(fn))
+                    continue
+                used[key] = used.get(key, 0) + 1
+                if key in TABLE and used[key] <= TABLE[key][0]:
+                    rr.ok("%s: time subtraction [%s]" % (shortfn(fn), TABLE[key][1]))
+                else:
+                    rr.fail("time-subtraction:%s" % shortfn(fn), "`%s` subtracts times with `%s`, which panics when the result would be negative, and nothing on the path establishes minuend >= subtrahend (`%s` - `%s`): one slow iteration — an RPC that times out, a backlog of blocks — kills the thread" % (shortfn(fn), shortfn(tgt), og.show(a0)[:40], og.show(a1)[:40]), where=t.get("line"))
                 continue
             # ---- Index / IndexMut
             if any(_INDEX.search(n) for n in names):
